@@ -85,9 +85,26 @@ MODEL_MUTATIONS = [
      "                  /\\ LET handed == {}\n",
      dict(n=2, ntypes=1, maxpars=(99,), maxws=(2,), backends=('spawn',), cached='none', reqs='roots'), 0, False,
      'A_C10_OnlyOwnFailures'),
+    ('the failing round of a fail-fast run is not drained before the failure is raised',
+     "  /\\ lg' = [lg EXCEPT !.del = @ \\o lg.q, !.q = <<>>]                \\* second drain, after executor.wait\n",
+     "  /\\ lg' = lg\n",
+     dict(n=2, ntypes=1, maxpars=(99,), maxws=(2,), backends=('fork',), cached='none', reqs='roots', fails='singles', cofs=(False,)), 0, True,
+     'A_C19_DeliveredBeforeRaise'),
+    ('task numbers start at 0',
+     "                          /\\ tname' = [tname EXCEPT ![t] = tcount[cfg.typ[t]] + 1]\n",
+     "                          /\\ tname' = [tname EXCEPT ![t] = tcount[cfg.typ[t]]]\n",
+     dict(n=2, ntypes=1, maxpars=(99,), maxws=(2,), backends=('fork',), cached='none', reqs='roots'), 0, False,
+     'A_G01_Names'),
+    ('the progress bar also advances for failed tasks',
+     "       /\\ pb' = IF Grow /\\ ok THEN [pb EXCEPT",
+     "       /\\ pb' = IF Grow THEN [pb EXCEPT",
+     dict(n=2, ntypes=1, maxpars=(99,), maxws=(2,), backends=('fork',), cached='none', reqs='roots', fails='singles'), 0, False,
+     'A_G02_Count'),
 ]
 
 FORMULAS = {
+    'A_C19_DeliveredBeforeRaise': (['A_C19_DeliveredBeforeRaise'], []), 'A_G01_Names': (['A_G01_Names'], []),
+    'A_G02_Count': (['A_G02_Count'], []),
     'A_C17_EmptyAtReturn': (['A_C17_EmptyAtReturn'], []), 'A_C02_SubmitAfterDeps': ([], ['A_C02_SubmitAfterDeps']),
     'A_C04_Type': (['A_C04_Type'], []), 'A_C04_Workers': (['A_C04_Workers'], []), 'A_C05_AtRest': (['A_C05_AtRest'], []),
     'A_C03_OnlyNeeded': (['A_C03_OnlyNeeded'], []), 'A_C10_NoValueForFailed': (['A_C10_NoValueForFailed'], []),
@@ -117,7 +134,8 @@ def model_mutations(scratch: Path) -> list:
             text = harness.labrun_cfg_text(invariants=[], properties=['C11_Termination'], spec='FairSpec')
         else:
             invs, props = FORMULAS[formula]
-            text = harness.labrun_cfg_text(invariants=invs, properties=props, max_int=max_int, logs=logs)
+            text = harness.labrun_cfg_text(invariants=invs, properties=props, max_int=max_int, logs=logs,
+                                           grow=formula.startswith('A_G'))
         saved = tlc.SPEC_DIR
         tlc.SPEC_DIR = mdir
         try:
@@ -151,7 +169,7 @@ OTHER_MUTATIONS = [
     ('the pinned save protocol (metadata first, is_cached = directory exists)', 'SaveProtocol.tla', 'SaveProtocol_first.cfg',
      "XXX", "XXX", 'NoPoison', 'CONSTANTS\n  Proto = "meta-first"\n  Overwrite = FALSE\n  Enumerate = FALSE\nSPECIFICATION Spec\nINVARIANT NoPoison\n'),
     ('a cached entry is replaced by a run that only loaded it', 'CacheMap.tla', 'CacheHistory_gen2.cfg',
-     "     IF t \\in Executed(c, st, req, bust) /\\ CacheableIn(c, t)", "     IF t \\in Closure(c, st, req, bust) /\\ CacheableIn(c, t)",
+     "     IF t \\in OkExecuted(c, st, req, bust, F) /\\ CacheableIn(c, t)", "     IF t \\in Closure(c, st, req, bust) /\\ CacheableIn(c, t)",
      'OnlyOwnEntryChanges', None),
 ]
 
@@ -193,7 +211,7 @@ def other_mutations(scratch: Path) -> list:
 def trace_corruptions(scratch: Path) -> list:
     cfg = families.mk(3, [[], [1], [1, 2]], [1, 1, 1], [99], [True], [], [3, 1], 'fork', 2)
     sched = [["S"], ["fin", 1], ["exit", 1], ["C"], ["S"], ["fin", 2], ["C"], ["S"], ["fin", 3], ["C"]]
-    job = {'id': 'st-base', 'cfg': cfg, 'schedule': sched, 'shape_seed': 5, 'beh': {'1': 'L1', '2': 'P1', '3': 'L1'}}
+    job = {'id': 'st-base', 'cfg': cfg, 'schedule': sched, 'shape_seed': 5, 'beh': {'1': 'L1', '2': 'P1', '3': 'L1'}, 'progress': True}
     base = harness.run_jobs([job], scratch, procs=1)[0]
 
     def variant(name, fn):
@@ -234,6 +252,9 @@ def trace_corruptions(scratch: Path) -> list:
         ('a delivered log record dropped', variant('c-log', lambda ev: [e.update(delivered=e['delivered'][1:]) for e in ev if e['e'] == 'obs_logs']),
          'C19_ExactlyOnce'),
         ('capture event removed', variant('c-nocapture', drop('capture', lambda e: e['t'] == 3)), 'C17_Captured'),
+        ('a worker saw another process name', variant('c-pname', set_field('rbegin', 'pname', 'T1pNc1[3]', 0)), 'G01_Names'),
+        ('a progress-bar update removed', variant('c-pbupd', drop('pb_upd', lambda e: True)), 'G02_Count'),
+        ('the progress bar is never closed', variant('c-pbclose', drop('pb_close')), 'G02_Closed'),
     ]
     traces = [base] + [c[1] for c in cases]
     val = harness.validate_parallel([{k: t[k] for k in ('tid', 'cfg', 'ev')} for t in traces], scratch, props='ALL', par=4)
